@@ -29,7 +29,7 @@ CHECKS = {
 }
 
 CHECKS.update({
- "C04": ("runtime monitoring: event histories over shared leaves checked after every event against a ledger of finite-difference contributions from fresh re-executions; byte snapshots of everything unreachable from each root; backward-trace monitor",
+ "C04": ("runtime monitoring: event histories over shared leaves checked after every event against a ledger of finite-difference contributions from fresh re-executions; exact (tolerance-free) power-of-two ledgers; byte snapshots of everything unreachable from each root, also after a backward through a deep copy; backward-trace monitor",
          "Exploration: random histories (build / backward from any root or interior node / repeat / retain_grad / retain_grads / three reset paths / reuse of earlier results / backward on a leaf) plus the named scenarios run on the real engine; every leaf's .grad is compared with the sum of independently computed contributions after each event.",
          "Trusts harness/fd.py and the global-program bookkeeping in props/c04_accumulation.py; retained non-leaf .grad values are not asserted.", "DESIGN.md §4 C04"),
  "C07": ("runtime monitoring: stack model of the two grad-mode flags + behavioural probes after every context enter/exit (incl. exception exits, pre-constructed and re-entered context objects) + grad-mode and release-discipline monitors",
@@ -38,10 +38,10 @@ CHECKS.update({
  "C08": ("runtime monitoring: histories of backward / zero_grad / step / freeze events compared step by step with float64 reference implementations of the torch.optim algorithms; identity, dtype, shape, bystander and frozen-parameter byte checks",
          "Exploration: thousands of histories over the hyper-parameter grid on 1-4 parameters (0-d, size-1, float32/float64) with gradients produced by the real engine.",
          "Trusts the reference optimizers in props/c08_optimizers.py; for SGD maximize+weight_decay both the documented pseudo-code and torch's implementation are accepted; bias-correction after skipped steps is not asserted.", "DESIGN.md §4 C08"),
- "C10": ("runtime monitoring: direct dtype/shape contracts on every op form in both dtypes, float32-vs-float64 forward-error comparison, grad shape/dtype monitor walking the whole graph after each backward",
+ "C10": ("runtime monitoring: direct dtype/shape contracts on every op form in both dtypes, float32-vs-float64 forward-error comparison, float32 gradients compared with the float64 gradients of the same function, grad shape/dtype monitor walking the whole graph after each backward",
          "Exploration: both op catalogues x dtypes x scalar operands x broadcasting x 0-d results x upstream-gradient dtype, incl. layers with default float32 parameters fed float64 inputs.",
          "Trusts NumPy dtype semantics and the forward-error bound.", "DESIGN.md §4 C10"),
- "C11": ("runtime monitoring: byte snapshots of operands / targets / caller's gradient / bystanders around forward, backward, follow-up events and repeats; kernel argument-mutation sanitizer naming the kernel; digest equality of repeats",
+ "C11": ("runtime monitoring: byte snapshots of operands / targets / caller's gradient / bystanders and tensor-level snapshots (array held, dtype) around forward, backward, follow-up events, repeats and later calls on other values; kernel argument-mutation sanitizer naming the kernel; digest equality of repeats",
          "Exploration: both catalogues with operands stored as plain, transposed, strided, reshaped and shared-base views, random DAG programs with bystander graphs, and the documented mutators.",
          "Aliasing without a write is not reported; bit-identical repeats are asserted within one process with BLAS pinned to one thread.", "DESIGN.md §4 C11"),
  "C12": ("runtime monitoring: random module-tree construction and action programs compared after every step with a plain-Python registry-tree model; tagging modules observe Sequential order",
@@ -59,7 +59,7 @@ CHECKS.update({
  "C16": ("runtime monitoring: cross-variant equality (bit-exact im2col, 1e-12 col2im), adjoint identity on random x/y, multiplicity by counting loops, loop reference for the layout, exact stride-bounds sanitizer, crash containment",
          "Exploration: geometry grid enumerated per axis (thorough ~88k geometry cases), both layouts, pad values, int/tuple/mixed forms, empty geometries.",
          "Trusts harness/ref/nnref.unfold/fold.", "DESIGN.md §4 C16"),
- "C17": ("runtime monitoring: backward-trace exactly-once/order monitor on chains up to 2e5 ops at the default recursion limit, Python-call counts (sys.setprofile) at N and 2N, live-tensor registry sampled at quiescent points of untracked loops, weak references",
+ "C17": ("runtime monitoring: backward-trace exactly-once/order monitor on chains up to 2e5 ops at the default recursion limit, Python-call counts (sys.setprofile) at N and 2N, library source lines executed by the sweep (sys.settrace) on ladders of reused intermediates, CPU time at 1e5/4e5 ops in the thorough tier only, live-tensor registry sampled at quiescent points of untracked loops, weak references",
          "Exploration (bounded progress): stated sizes only - chains 1e3..2e5, wide 2000-term graphs, depth-60 ladders, untracked loops up to 1e5 updates.",
          "Linearity decided on counted calls, never on wall-clock; memory decided on live Tensor objects.", "DESIGN.md §4 C17"),
  "C19": ("runtime monitoring: SHA-256 digests of every produced array across >= 6 fresh processes (PYTHONHASHSEED 0/1/4242/random x allocation-layout shifts) and 2-3 in-process repeats; RNG tap on generator constructors called from library code",
